@@ -19,7 +19,7 @@ func TestRacePass(t *testing.T) {
 	if tier() == "thorough" {
 		seeds = 10
 	}
-	bodies := []string{"TestRace_MuxBroker", "TestRace_GRPCBroker", "TestRace_Client"}
+	bodies := []string{"TestRace_MuxBroker", "TestRace_GRPCBroker", "TestRace_Client", "TestRace_ClientDeadMux"}
 	out := &enumResult{Exhaustive: false, Outcomes: map[string]int{}}
 	out.Notes = append(out.Notes, "race detector pass: exhaustive over the listed operation groups, not over schedules")
 	seen := map[string]bool{}
@@ -75,8 +75,11 @@ func TestRacePass(t *testing.T) {
 				if len(tail) > 600 {
 					tail = tail[len(tail)-600:]
 				}
-				if strings.Contains(string(o), "panic:") {
+				if strings.Contains(string(o), "panic:") || strings.Contains(string(o), "fatal error:") {
 					i := strings.Index(string(o), "panic:")
+					if i < 0 {
+						i = strings.Index(string(o), "fatal error:")
+					}
 					out.Violations = append(out.Violations, enumViolation{Case: b, Class: "PANIC", Msg: "race body crashed: " + strings.SplitN(string(o)[i:], "\n", 2)[0] + " [" + b + "]"})
 					res = "panic"
 				} else {
@@ -88,6 +91,7 @@ func TestRacePass(t *testing.T) {
 		}
 	}
 	out.Samples = []any{"TestRace_MuxBroker: 4x(50 NextId on both brokers, Dispense+call), 6 Accept/Dial pairs on distinct ids in both directions, Close racing with them",
-		"TestRace_GRPCBroker: same over gRPC with and without multiplexing", "TestRace_Client: Start/Client+Dispense+call/Protocol/ReattachConfig/Exited/ID doubled, then NegotiatedVersion, then 2 Kills + accessors (+CleanupClients) against a real plugin process"}
+		"TestRace_GRPCBroker: same over gRPC with and without multiplexing", "TestRace_Client: Start/Client+Dispense+call/Protocol/ReattachConfig/Exited/ID doubled, then NegotiatedVersion, then 2 Kills + accessors (+CleanupClients) against a real plugin process",
+		"TestRace_ClientDeadMux: broker multiplexing agreed, the plugin's socket refuses the first connection; 4 goroutines retry Client() 25 times each and read accessors, then Client()+Kill twice"}
 	emit(out)
 }
